@@ -12,6 +12,7 @@
 package main
 
 import (
+	"runtime"
 	"fmt"
 	"sort"
 	"strings"
@@ -34,6 +35,8 @@ type taskInfo struct {
 	ctxid     int
 	nilexec   bool // submitted WITHOUT an executor (legal): accepted, never "executed", one {nil, nil} result
 	submitted bool
+	queued    bool    // the submission call returned (accepted) with no result present yet: the task sits in the queue
+	errs      []error // the errors of the results received
 }
 
 type ev struct {
@@ -43,6 +46,7 @@ type ev struct {
 }
 
 type inst struct {
+	started  bool // the pool was started (auto-start, or a Start call was issued)
 	p        *wp.Pool
 	poolCtx  vcontext.Context
 	ctxs     map[int]vcontext.Context
@@ -145,9 +149,11 @@ func (in *inst) Exec(t int, op vdrv.Op) string {
 		ti.submitted = true
 		if op.Name == "D" {
 			in.p.Do(ti.task)
+			ti.queued = ti.task.Result().Len() == 0
 			return "u"
 		}
 		if in.p.TryDo(ti.task) {
+			ti.queued = ti.task.Result().Len() == 0
 			return "b1"
 		}
 		return "b0"
@@ -181,6 +187,7 @@ func (in *inst) Exec(t int, op vdrv.Op) string {
 		in.stopInfo = append(in.stopInfo, fmt.Sprintf("live=%d running=%d armed=%d q=%d", vsched.LiveDaemons(), in.running, len(vtime.Armed()), in.p.VerifQueueLen()))
 		return "u"
 	case "S":
+		in.started = true
 		in.p.Start()
 		return "u"
 	case "C":
@@ -238,6 +245,9 @@ func (in *inst) Exec(t int, op vdrv.Op) string {
 		}
 		res := in.resString(id, r)
 		ti.received = append(ti.received, res)
+		if r != nil && r.Err != nil {
+			ti.errs = append(ti.errs, r.Err)
+		}
 		return res
 	}
 	panic("unknown op " + op.Name)
@@ -296,7 +306,10 @@ func newInst(s *vdrv.Scenario) vdrv.Instance {
 	}
 	// the pool context is a child of a harness-owned root, so that the harness can recognise it
 	var root vcontext.Context
-	if s.OptInt("pooldl", 0) == 2 {
+	if s.OptInt("nilctx", 0) == 1 {
+		// no parent context at all: documented to mean context.Background()
+		in.cancels[0] = func() {}
+	} else if s.OptInt("pooldl", 0) == 2 {
 		// the pool's parent context is cancelled with a cause
 		c, cc := vcontext.WithCancelCause(vcontext.Background())
 		root, in.cancels[0] = c, func() { cc(errCause) }
@@ -312,6 +325,7 @@ func newInst(s *vdrv.Scenario) vdrv.Instance {
 	}
 	in.p = wp.NewPool(root, wp.Option{NumberWorker: rawWorkers, ExpandableLimit: int32(rawLimit), ExpandedLifetime: vtime.Duration(s.OptInt("lifetime", 0)), DisableAutoStart: s.OptInt("autostart", 1) == 0})
 	in.poolCtx = in.p.VerifCtx()
+	in.started = s.OptInt("autostart", 1) != 0
 	current = in
 	return in
 }
@@ -352,6 +366,20 @@ func monitor(s *vdrv.Scenario, h *vdrv.History, fin string, aborted string) stri
 			return "a call hangs forever: " + aborted
 		}
 		return "run did not complete: " + aborted
+	}
+	if initNumCPU != runtime.NumCPU() {
+		return fmt.Sprintf("the default worker count computed at package init is %d, documented (and required for the cap of a default pool): runtime.NumCPU() = %d", initNumCPU, runtime.NumCPU())
+	}
+	// a pool without expansion that was never started executes nothing: a task that was accepted into its queue can
+	// only be released by Stop, with the pool context's error (its own context's error would say it was refused)
+	if !in.started && in.limit == 0 {
+		for id, ti := range in.tasks {
+			for _, e := range ti.errs {
+				if ti.queued && in.poolCtx != nil && e != in.poolCtx.Err() {
+					return fmt.Sprintf("task %d was accepted into the queue of a pool that was never started and was delivered %v: Stop releases queued tasks with the pool context's error (%v)", id, e, in.poolCtx.Err())
+				}
+			}
+		}
 	}
 	cs := calls(s, h)
 	stopped := false
@@ -605,6 +633,9 @@ func hasCancel(s *vdrv.Scenario) bool {
 	}
 	return false
 }
+
+// what the package's init() computed as the default worker count, before the driver fixes it
+var initNumCPU = wp.VerifNumCPU()
 
 func main() {
 	comp := vdrv.Component{New: newInst, Monitor: monitor}
